@@ -23,6 +23,8 @@ def exec_cfg(path, *, tabcols="MC_TabCols", colvals="MC_ColVals", rows=2, steps=
              level=1, genbad=False, samplek=0, focus=None, invariants=(), emit=False, one_in=1, bdev="NoBDev", properties=(), emitsel="all"):
     consts = {
         "NULL": "= NULL",
+        "PINF": "= PINF",
+        "NINF": "= NINF",
         "TabCols": "<- " + tabcols,
         "ColVals": "<- " + colvals,
         "Kind": "<- MC_Kind",
